@@ -119,7 +119,7 @@ func runWorker(opt Options, c *Check, shard, n int, deadline time.Time, out *mer
 				if cur != last {
 					last = cur
 					lastChange = time.Now()
-				} else if time.Since(lastChange) > HangAfter {
+				} else if time.Since(lastChange) > hangAfter(c) {
 					hung = true
 					cmd.Process.Signal(syscall.SIGKILL)
 					werr = <-doneCh
@@ -190,6 +190,13 @@ func runWorker(opt Options, c *Check, shard, n int, deadline time.Time, out *mer
 			return
 		}
 	}
+}
+
+func hangAfter(c *Check) time.Duration {
+	if c.HangAfterS > 0 {
+		return time.Duration(c.HangAfterS) * time.Second
+	}
+	return HangAfter
 }
 
 // HangAfter is the no-progress interval after which a worker is declared hung.
